@@ -12,6 +12,22 @@ import (
 )
 
 func main() {
+	if len(os.Args) > 1 && os.Args[1] == "check" {
+		fs := flag.NewFlagSet("check", flag.ExitOnError)
+		id := fs.String("id", "", "property id")
+		tier := fs.String("tier", "", "quick|thorough")
+		only := fs.String("only", "", "only these harnesses")
+		fs.Parse(os.Args[2:])
+		if *tier == "" {
+			*tier = os.Getenv("VERIF_TIER")
+		}
+		if *tier == "" {
+			*tier = "quick"
+		}
+		var seed int64
+		fmt.Sscan(os.Getenv("VERIF_SEED"), &seed)
+		os.Exit(runCheck(*id, *tier, seed, *only))
+	}
 	pkg := flag.String("pkg", "", "harness package import path")
 	run := flag.String("run", "", "comma separated harness function names (default: all H_*)")
 	workers := flag.Int("workers", 16, "parallel workers")
